@@ -1,15 +1,16 @@
 """C08 - results are invariant under meaning-preserving rewrites of the formula text.
 
 Decided here (equality of results over all rewrites is not decided; these are the necessary table / shape agreements):
-  C08-R1  long / short spellings: the calls of collect_var_and_dom_from_operator are grouped by operator character; each of
-          `!`, `3`, `V`, `@` has exactly one short arm and one long arm (`\\bind`, `\\exists`, `\\forall`, `\\jump` - the
-          README list), both build the same HybridOp variant, pass the same domain permission, and the two jump arms
-          share the "no domain" check;
+  C08-R1  long / short spellings (tokrules): the term the tokenizer compares with the long operator names after `\\` is identified
+          and replaced by each name of the README list in turn; `!` / `\\bind`, `3` / `\\exists`, `V` / `\\forall`, `@` / `\\jump`
+          must build the same HybridOp variant and allow a domain under exactly the same mode flag values; the set of long names is
+          the README list;
   C08-R2  constants: the literals the terminal level maps to True / False are exactly the README list
           true / True / 1 and false / False / 0;
-  C08-R3  whitespace and redundant parentheses: the whitespace arm comes first and produces no token; a parenthesised
-          group is tokenised recursively and parsed by re-entering the top level, whose result is returned unchanged
-          (no extra node);
+  C08-R3  whitespace and redundant parentheses: a whitespace character produces neither token nor error, hybrid segments skip
+          whitespace before each part, the look-ahead of `3` / `V` skips whitespace, skip_whitespaces accepts every whitespace
+          character; `(` yields a recursively tokenised group, which the parser's terminal level parses by re-entering the top
+          level and returning that result unchanged (no extra node);
   C08-R4  renaming: evaluation only sees canonical depth-based names (C07-R4 must-pass-through), the symbolic copy of
           a variable is selected by `name.len() - 1` of the canonical name, in the comparator and in the projection;
   C08-R5  variable occurrences, jump targets and quantifier variables are renamed through the same scope map entry, and the new
